@@ -69,6 +69,12 @@ P = {
 }
 
 
+COMMON = ('; workloads widened over nine rounds of independently seeded defects: scale regimes, input representations (numpy scalars, str '
+          'subclasses, falsy user objects), alternative call spellings, a second model / world / library kept alive, histories that contain '
+          'failures (exceptions and KeyboardInterrupt-likes from user callbacks, refused calls) with the caller carrying on, deep-copied / '
+          'restored objects; the cases of every run are spread over interpreter modes (default, python -O, warnings as errors, debug logging)')
+
+
 def main():
     checks, na = [], []
     for pid in sorted(P):
@@ -85,7 +91,7 @@ def main():
             'engine': 'ecagent-runtime-monitors',
             'level_claimed': {'category': m['cat'], 'text': m['text'], 'design_ref': 'DESIGN.md section ' + m['ref']},
             'level_note': m['note'],
-            'technique': m['technique'],
+            'technique': m['technique'] + COMMON,
         })
     man = {
         'version': 1,
